@@ -240,6 +240,15 @@ class StmtMixin:
                     newbase = self.store_subscript(base, idx, v, st3, outs, t.lineno)
                     if newbase is None:
                         continue
+                    alias = st3.env.get('$alias:' + t.value.id) if isinstance(t.value, ast.Name) else None
+                    if alias is not None:
+                        # `x[k] = v` where x names a container that lives on the heap (x = obj.d): the store goes to that
+                        # location (same object in Python), and x keeps naming it
+                        for st4 in self.assign(alias.t, newbase, st3, outs):
+                            st4.env[t.value.id] = newbase
+                            st4.env['$alias:' + t.value.id] = alias
+                            yield st4
+                        continue
                     yield from self.assign(t.value, newbase, st3, outs)
         else:
             raise Unsupported(f'assignment target {type(t).__name__}')
